@@ -85,6 +85,9 @@ class EvalMixin:
             if r[0] == "module":
                 return ModuleRef(r[1])
             if r[0] == "external":
+                full = r[1] + ("." + r[2] if r[2] else "")
+                if full in getattr(self, "external_consts", {}):
+                    return self.external_consts[full]
                 return ExternalRef(r[1], r[2])
         raise Unsupported(f"global {r}")
 
@@ -460,7 +463,10 @@ class EvalMixin:
                 raise PyExc("AttributeError", name)
             return self.global_value(r, v.module)
         if isinstance(v, ExternalRef):
-            return ExternalRef(v.full, name) if v.attr is None else ExternalRef(v.full, name)
+            full = v.full + "." + name
+            if full in getattr(self, "external_consts", {}):
+                return self.external_consts[full]
+            return ExternalRef(v.full, name)
         if isinstance(v, FuncVal):
             if name == "__wrapped__":
                 return v
@@ -542,8 +548,12 @@ class EvalMixin:
                     raise PyExc("KeyError", "key")
                 return v[keys[c]]
             try:
-                return v[idx]
+                return dict.__getitem__(v, idx)
             except KeyError:
+                if getattr(v, "factory", None) is not None:
+                    val = self.call(v.factory, [], {})
+                    v[idx] = val
+                    return val
                 raise PyExc("KeyError", repr(idx))
             except TypeError:
                 raise Unsupported("unhashable key")
@@ -765,6 +775,9 @@ class EvalMixin:
             if isinstance(v.length, int):
                 return [v.get(i) for i in range(v.length)]
             raise Unsupported("concrete iteration over symbolic-length sequence")
+        if isinstance(v, ClassRef) and v.cls.is_enum(self.repo):
+            members, _alias = self.enum_members(v.cls)
+            return [EnumVal(v.cls, k, members) for k in range(len(members))]
         if isinstance(v, Obj):
             m = v.cls.find_method(self.repo, "__iter__")
             if m is not None:
